@@ -83,6 +83,12 @@ impl Default for Hooks {
 /// runs the scenario to completion and returns its events (first event: the scenario itself)
 pub fn run(sc: &Scenario, hooks: Hooks) -> Vec<Value> {
     let _ = take_events();
+    // guarded hooks of the code under test (cfg aws_s2n_quic_verif) report through a thread-local line sink
+    s2n_quic_core::verif::install(Box::new(|line: &str| {
+        if let Ok(v) = serde_json::from_str::<Value>(line) {
+            emit(v);
+        }
+    }));
     let net = AdvNet::new(sc.net.clone(), sc.seed);
     let server_slot = net.server.clone();
     let mut executor = Executor::new(net, sc.seed);
@@ -140,6 +146,7 @@ pub fn run(sc: &Scenario, hooks: Hooks) -> Vec<Value> {
         Ok(()) => None,
         Err(p) => Some(if let Some(s) = p.downcast_ref::<&str>() { s.to_string() } else if let Some(s) = p.downcast_ref::<String>() { s.clone() } else { "panic".into() }),
     };
+    s2n_quic_core::verif::uninstall();
     let mut evs = take_events();
     // the executor is dropped here (closing it may emit further events we do not need)
     let _ = std::panic::catch_unwind(std::panic::AssertUnwindSafe(move || drop(executor)));
